@@ -515,7 +515,7 @@ class ASTWildcardExpression(ASTExpressionBase):
 
     def source(self, sql_type: SQLType = SQLType.DEFAULT) -> str:
         """返回语法节点的 SQL 源码"""
-        return f"{self.table_name}.*" if self.table_name is not None else "*"
+        return f"{quote_name_if_needed(self.table_name)}.*" if self.table_name is not None else "*"
 
 
 @dataclasses.dataclass(slots=True, frozen=True, eq=True)
@@ -1935,7 +1935,7 @@ class ASTUpdateSetColumn(ASTBase):
 
     def source(self, sql_type: SQLType = SQLType.DEFAULT) -> str:
         """返回语法节点的 SQL 源码"""
-        return f"{self.column_name} = {self.column_value.source(sql_type)}"
+        return f"`{self.column_name}` = {self.column_value.source(sql_type)}"
 
 
 @dataclasses.dataclass(slots=True, frozen=True, eq=True)
